@@ -415,39 +415,46 @@ def endsWithBackslashQuote (s : Bytes) : Bool :=
   | 0x22 :: 0x5C :: _ => true
   | _ => false
 
-/-- "Join quoted fields back together" (deptest.go:80-108). `joinOuter` is the outer
-loop at an item; `joinInner` the inner loop with the fields collected so far. After a
-quoted value is completed, the inner loop has already advanced `i` and the outer loop's
-`i++` advances it again: the item that follows a quoted value is skipped (mirrored as
-in the code). -/
-def joinQuoted : Bool → List Bytes → List Bytes → Res (List Bytes)
-  | _, quoted, [] => if quoted.isEmpty then .ok [] else .err      -- unterminated quotes
-  | false, _, it :: rest =>
+/-- "Join quoted fields back together" (deptest.go:80-108), as one structural
+recursion over the items. State: `skip` = the outer loop's `i++` that follows a
+completed quoted value is still to be done (it skips one item: mirrored as in the
+code); `quoted = some q` = inside the inner loop with the fields `q` collected so far,
+`none` = in the outer loop. -/
+def joinQuoted : Bool → Option (List Bytes) → List Bytes → Res (List Bytes)
+  | _, none, [] => .ok []
+  | _, some _, [] => .err                                       -- unterminated quotes
+  | true, none, _ :: rest => joinQuoted false none rest         -- the item skipped by the second `i++`
+  | false, none, it :: rest =>
     if it.head? != some 0x22 then
-      match joinQuoted false [] rest with
+      match joinQuoted false none rest with
       | .ok l => .ok (it :: l)
       | e => e
-    else inner [] it rest
-  | true, quoted, it :: rest => inner quoted it rest
-where
-  /-- one iteration of the inner loop on item `s`. -/
-  inner (quoted : List Bytes) (s : Bytes) (rest : List Bytes) : Res (List Bytes) :=
-    let quoted := quoted ++ [s]
-    if s.getLast? == some 0x22 then
-      if s.length ≥ 2 && endsWithBackslashQuote s then joinQuoted true quoted rest
-      else match unquote (join [0x20] quoted) with
+    else
+      -- first iteration of the inner loop, on the same item
+      if it.getLast? == some 0x22 then
+        if it.length ≥ 2 && endsWithBackslashQuote it then joinQuoted false (some [it]) rest
+        else match unquote (join [0x20] [it]) with
+          | none => .err
+          | some uq =>
+            match joinQuoted true none rest with
+            | .ok l => .ok (uq :: l)
+            | e => e
+      else joinQuoted false (some [it]) rest
+  | _, some q, it :: rest =>
+    -- a further iteration of the inner loop
+    if it.getLast? == some 0x22 then
+      if it.length ≥ 2 && endsWithBackslashQuote it then joinQuoted false (some (q ++ [it])) rest
+      else match unquote (join [0x20] (q ++ [it])) with
         | none => .err
         | some uq =>
-          match (match rest with
-                 | [] => joinQuoted false [] []
-                 | _ :: rest' => joinQuoted false [] rest') with
+          match joinQuoted true none rest with
           | .ok l => .ok (uq :: l)
           | e => e
-    else joinQuoted true quoted rest
+    else joinQuoted false (some (q ++ [it])) rest
 
 /-- `deptest.ParseString`. -/
 def depParseString (h : Heap) (s : Bytes) : Res (Heap × Set) :=
-  match joinQuoted false [] (fields s) with
+  match joinQuoted false none (fields s) with
   | .ok items =>
     match parseItems C19AttrKeys.depNames C19AttrKeys.depAllKeys C19AttrKeys.depFlagKeys items with
     | .ok calls => applyAttrs h Set.zero calls
